@@ -159,6 +159,44 @@ pub fn main_rdfc(deep: bool) {
         let named: Vec<OQuad> = (0..k).map(|i| edge(10 + i, 20 + i, Some(b(30 + i)))).collect();
         n += check(&named, &format!("{} disjoint pairs, each in its own blank graph", k));
     }
+    // non-default limits: an explicit error is right exactly when the limit is exceeded (as measured by the oracle
+    // run: deepest recursion vs depth_factor x number of blank nodes; longest permuted list vs permutation_limit)
+    {
+        let mut shapes: Vec<(String, Vec<OQuad>)> = vec![];
+        for k in 3..=5usize {
+            let cyc: Vec<OQuad> = (0..k).map(|i| edge(i, (i + 1) % k, None)).collect();
+            shapes.push((format!("cycle{}", k), cyc.clone()));
+            let mut with_unique = cyc.clone();
+            for i in 0..k { with_unique.push(OQuad { s: b(50 + i), p: iri(&format!("x:q{}", i)), o: iri("x:o"), g: None }); }
+            shapes.push((format!("cycle{} + {} blank nodes with unique hashes", k, k), with_unique));
+            let star: Vec<OQuad> = (1..=k).map(|i| edge(0, i, None)).collect();
+            shapes.push((format!("star{}", k), star));
+        }
+        for (name, qs) in &shapes {
+            let set: BTreeSet<OQuad> = qs.iter().cloned().collect();
+            let qs: Vec<OQuad> = set.into_iter().collect();
+            let d = dataset(&qs);
+            let (want, _, max_list, max_depth, n_bnodes) = canonicalize(HashFn::S256, &qs);
+            for factor in [0.25f32, 0.5, 0.75, 1.0, 2.0] { for plimit in [1usize, 2, 3, 6] {
+                n += 1;
+                let mut out = vec![];
+                let r = normalize_with::<Sha256, _, _>(&d, &mut out, factor, plimit).map_err(|e| e.to_string());
+                let over_depth = max_depth as f32 > factor * n_bnodes as f32;
+                let over_perm = max_list > plimit;
+                match r {
+                    Ok(()) => {
+                        let got = String::from_utf8(out).unwrap();
+                        if over_perm { println!("{{\"mismatch\":\"no error although the permutation limit is exceeded\",\"case\":{:?},\"limit\":{},\"longest list\":{}}}", name, plimit, max_list); std::process::exit(1); }
+                        if got != want { println!("{{\"mismatch\":\"canonical N-Quads differ from RDFC-1.0 under non-default limits\",\"case\":{:?},\"depth_factor\":{},\"permutation_limit\":{}}}", name, factor, plimit); std::process::exit(1); }
+                    }
+                    Err(e) => {
+                        // the implementation prunes permutations and may need less depth than the plain transcription, never more
+                        if !(over_depth || over_perm) { println!("{{\"mismatch\":\"canonicalisation failed within the configured limits\",\"case\":{:?},\"depth_factor\":{},\"permutation_limit\":{},\"blank nodes\":{},\"deepest recursion\":{},\"longest list\":{},\"error\":{:?}}}", name, factor, plimit, n_bnodes, max_depth, max_list, e); std::process::exit(1); }
+                    }
+                }
+            }}
+        }
+    }
     // the shape of duplicated links over graphs with partially shared targets
     let d = vec![edge(1, 11, Some(iri("x:g1"))), edge(1, 11, Some(iri("x:g2"))), edge(2, 12, Some(iri("x:g1"))), edge(2, 13, Some(iri("x:g2")))];
     n += check(&d, "duplicated links over two graphs");
